@@ -110,7 +110,17 @@ def late_additions():
     # a single-variant unit enum without `repr`: zero-sized in memory, one tag byte on the wire
     u0 = ('sum', ('enum', 'U0', ('A',), (0,)), (('prod', ('variant', (), ()), ()),))
     single = [u0, seq('vec', u0), opt(u0), arr(3, u0), seq('btreeset', u0), tup(u0, u8)]
-    return big + keys + single
+    # key enums and the order `derive(Ord)` gives them: by DISCRIMINANT VALUE, not by position in the declaration.
+    # KDesc { A = 5, B = 1, C = 3 } with use_discriminant = true (tags = discriminants, B < C < A): a model that
+    # orders by ordinal rejects the representation a BTreeSet<KDesc> really has and answers MKeyOrder for the bytes
+    # the strict decoder accepts.  KAsc { A = 2, B = 7, C = 9 } with use_discriminant = false (tags = ordinals).
+    unitv = ('prod', ('variant', (), ()), ())
+    kdesc = ('sum', ('enum', 'KDesc', ('A', 'B', 'C'), (5, 1, 3)), (unitv, unitv, unitv))
+    kasc = ('sum', ('enum', 'KAsc', ('A', 'B', 'C'), (0, 1, 2)), (unitv, unitv, unitv))
+    order = [kdesc, seq('btreeset', kdesc), seq('hashset', kdesc), mapk('btreemap', kdesc, u8),
+             mapk('hashmap', kdesc, ('text', 'string')), seq('vec', kdesc), seq('btreeset', tup(kdesc, u8)),
+             kasc, seq('btreeset', kasc), mapk('hashmap', kasc, u8)]
+    return big + keys + single + order
 
 
 def catalogue_types():
